@@ -235,8 +235,23 @@ def mk_eq(a: S, b: S) -> S:
     return ("eq0", (to_poly(a) - to_poly(b)).leading_sign_normalised().to_s())
 
 
+def is_enum_const(s: S) -> bool:
+    """Attribute chain rooted at a global whose last component is UPPER_CASE (enum member)."""
+    if not (isinstance(s, tuple) and len(s) == 3 and s[0] == "a" and isinstance(s[2], str) and s[2].isupper()):
+        return False
+    b = s[1]
+    while isinstance(b, tuple) and len(b) == 3 and b[0] == "a":
+        b = b[1]
+    return isinstance(b, tuple) and len(b) == 2 and b[0] == "g"
+
+
 def _non_numeric(s: S) -> bool:
+    if is_enum_const(s):
+        return True
     return isinstance(s, tuple) and len(s) >= 2 and s[0] == "k" and s[1] in ("str", "none", "bool")
+
+
+COMMUTATIVE_FIRST_TWO = {("g", "almost_eq")}   # repo helpers symmetric in their first two arguments
 
 
 def mk_call(fn: S, args: list[S], kwargs: list[tuple[str, S]]) -> S:
@@ -248,6 +263,8 @@ def mk_call(fn: S, args: list[S], kwargs: list[tuple[str, S]]) -> S:
             else:
                 flat.append(a)
         args = sorted(flat, key=skey)
+    if fn in COMMUTATIVE_FIRST_TWO and len(args) >= 2:
+        args = sorted(args[:2], key=skey) + list(args[2:])
     return ("c", fn, tuple(args), tuple(sorted(kwargs, key=lambda kv: kv[0])))
 
 
@@ -849,7 +866,11 @@ def atoms_of(s: S, pred: Callable[[S], bool]) -> list[S]:
 
     def rec(x):
         if isinstance(x, tuple):
-            if pred(x):
+            try:
+                ok = bool(x) and pred(x)
+            except (IndexError, TypeError):
+                ok = False
+            if ok:
                 out.append(x)
             for y in x:
                 rec(y)
